@@ -44,6 +44,10 @@ impl Prop for C10 {
     fn required_probes(&self) -> Vec<String> {
         let v: Vec<&str> = vec![
             "event_query_event",
+            "query_with_unformattable_datum",
+            "tolerant_responder_carries_on_after_failed_datum",
+            "query_without_output",
+            "no_query_of_the_message_answers",
             "query_first",
             "query_last",
             "trailing_semicolon_after_query",
@@ -152,6 +156,26 @@ impl Prop for C10 {
                     return;
                 }
                 if pred.result.is_err() {
+                    // a query one of whose data cannot be formatted at all (the write fails, the
+                    // response unit latches it): if the message nevertheless "succeeds", what the
+                    // buffer holds is not the response units of the executed queries
+                    if let Some(fu) = pred.fail_unit {
+                        let u = &s.msg.units[fu];
+                        if u.query && u.plan.fail.is_none() && u.plan.data.iter().any(|d| crate::device::datum_text(d).is_err()) {
+                            stats.probe("query_with_unformattable_datum");
+                            if u.plan.finish_ignore && u.plan.data.len() >= 2 {
+                                stats.probe("tolerant_responder_carries_on_after_failed_datum");
+                            }
+                            if o.result.is_ok() {
+                                out.push(Finding::new(
+                                    "C10.framing",
+                                    "message_succeeded_although_a_datum_could_not_be_written",
+                                    i,
+                                    format!("message {} ({}): unit {} has a datum that cannot be formatted, yet the message succeeded with buffer {:?}", describe_msg(s), format!("{:?}", s.fmt), fu, B(o.out.clone())),
+                                ));
+                            }
+                        }
+                    }
                     stats.bump("predicted_failure_skipped");
                     return;
                 }
@@ -195,6 +219,12 @@ impl Prop for C10 {
                 }
                 if !pattern.contains(&1) {
                     stats.probe("no_query_message");
+                }
+                if s.msg.units.iter().any(|u| u.query && u.plan.hdr.is_empty() && u.plan.data.is_empty()) {
+                    stats.probe("query_without_output");
+                    if s.msg.units.iter().filter(|u| u.query).all(|u| u.plan.hdr.is_empty() && u.plan.data.is_empty()) {
+                        stats.probe("no_query_of_the_message_answers");
+                    }
                 }
                 for u in &s.msg.units {
                     if u.query && u.plan.data.len() > 255 {
